@@ -11,6 +11,16 @@ CHECKS = {
         text='Exploration with an independent executable model as oracle. Every (pattern, name) pair up to the length bound over the quoting-relevant alphabet is executed against the real qnmatch and compared with a reference matcher written from the manual; rule lists are fed through the real option parser into a live System and every object\'s privacyClass / isVisible is compared with the reference precedence. Held on the executions run (bounded space completed), not a proof.',
         note='Trusts the reference matcher (vf/ref/glob_ref.py) as a reading of the manual; forms the manual does not define are executed for totality only.',
         ref='4/C13'),
+    'C05': dict(
+        technique='reference-model monitor: Class.mro/find/docsources/inherited tables/override notes compared with CPython type() built from the same source, exhaustive over all hierarchies of <=5 classes',
+        text='Exploration with CPython itself as the reference model. The same generated source is executed statement by statement by the interpreter (TypeError = inconsistent hierarchy) and analysed by pydoctor; linearisation, inconsistency reports (recorded through a System.msg monitor), member lookup, inherited docstrings, inherited-member tables and "overrides" notes are compared for every class. The space the property names (every ordered choice of bases, <=5 classes) is enumerated completely; n=6 and multi-module/generic hierarchies are sampled.',
+        note='Trusts CPython 3.12 type() and the generated member layout; classes that CPython cannot build because an earlier class was refused are not judged; explicit typing.Generic[T] bases are generated only where typing does not rewrite the bases at run time.',
+        ref='4/C05'),
+    'C19': dict(
+        technique='trace monitor: every visit/depart dispatched through visitor._BaseVisitor is recorded (wrapped from the harness) and checked offline by a stack automaton and against an executable reading of the documented contract; exhaustive over trees<=4 x prunings x extension timings; builder scope-stack invariant hooked after processModuleAST',
+        text='Exploration. Event traces of the real Visitor.walk/walkabout are recorded at the dispatch boundary and compared, per visitor, with the trace the documented contract requires, and run through a balance/nesting/order automaton. The bounded space of the property (all trees of <=4 nodes x 5^n pruning assignments x 16 timing subsets, both traversals) is completed on every run; the real ASTBuilder with its real extensions plus four recording extensions is traced on real packages and generated modules, and its scope stack is checked after every module.',
+        note='The contract is the one in the docstrings of pydoctor/visitor.py as transcribed in vf/ref/visitor_ref.py; prunings raised by extensions are outside the statement; visits made through generic_visit are visit-only by design.',
+        ref='4/C19'),
 }
 
 NOT_APPLICABLE = {
